@@ -26,11 +26,12 @@ type client struct {
 }
 
 type sgen struct {
-	r     *rand.Rand
-	run   *run
-	ops   []string
-	lease int
-	pools int
+	r       *rand.Rand
+	run     *run
+	ops     []string
+	lease   int
+	pools   int
+	oldCids [][]byte
 }
 
 func (g *sgen) do(op string) string {
@@ -138,6 +139,12 @@ func (g *sgen) both(p fp) string {
 }
 
 func (g *sgen) probe(cs []*client) {
+	// circuit-ids some client used earlier, presented by a MAC that never had a lease
+	for _, old := range g.oldCids {
+		if g.r.Intn(3) == 0 {
+			g.do(runOp(exhFrame([6]byte{2, 0, 0, 0, 0, 0x99}, 1, 0, old, false, true).frame(), clkSpecs[g.r.Intn(len(clkSpecs))]))
+		}
+	}
 	for _, c := range cs {
 		if g.r.Intn(2) == 0 {
 			continue
@@ -230,6 +237,9 @@ func genServerSeq(r *rand.Rand, steps int, variant int) []string {
 			g.do("cleanup")
 			g.probe(cs)
 		case x < 18: // the client moves to another port / its relay starts or stops adding option 82
+			if c.cid != nil && len(g.oldCids) < 4 {
+				g.oldCids = append(g.oldCids, c.cid)
+			}
 			if r.Intn(2) == 0 {
 				c.cid = []byte(fmt.Sprintf("moved-%d", r.Intn(3)))
 			} else {
